@@ -182,7 +182,7 @@ def rich_fn(rng, name, vis=None, allow_const=True, min_stmts=0, deps=None, trait
         ret = "-> u8"
     stmts = rng.sample(STMTS, rng.randint(min_stmts, 8))
     body = "{ " + " ".join(stmts) + " }"
-    sig = "%s %s fn %s%s(%s%s) %s %s" % (v, q, name, g, ", ".join([d] + ps), trailing, ret, w)
+    sig = "%s %s fn %s%s(%s%s) %s %s" % (v, q, name, g, ", ".join(([d] if d else []) + ps), trailing, ret, w)
     return "\n".join(attrs + [" ".join(sig.split()) + " " + body])
 
 
